@@ -256,6 +256,9 @@ def l0_compare(prog, src, vals, err, rep, pyi, perr, stats):
     problems.append("stub does not parse: %r" % e)
     return problems, viols
   stats["worlds>1" if nworlds > 1 else "worlds=1"] += 1
+  flavour = L0.sub_flavour([L0.norm_stmt(x) for x in prog])
+  if flavour:
+    stats["programs_with_subscripts(%s)" % flavour] += 1
   if dup:
     stats["programs_with_repeated_call_key"] += 1
   for x, (bs, lo, bl, up) in zip(names, names_rep):
@@ -283,6 +286,11 @@ def l0_compare(prog, src, vals, err, rep, pyi, perr, stats):
       continue
     if dup:
       stats["names_lower_bound_skipped(call cache)"] += 1
+      continue
+    if flavour == "free":
+      stats["names_lower_bound_skipped(subscript of a multi-binding element)"] += 1
+      if L0.ty_subset(lo_t, pt):
+        stats["names_lower_bound_skipped_but_holds"] += 1
       continue
     if not L0.ty_subset(lo_t, pt):
       # The lower bound rests on solver completeness (C07).  If the real solver demonstrably drops a binding of
@@ -986,7 +994,8 @@ def digests():
 
 def run(res):
   res.rule = ("(a) generated L0 programs of 5-40 statements (assignments of literals/displays/not/is None/isinstance/"
-              "and/or/conditional expressions/calls, if/elif/else, module-level defs with positional parameters); "
+              "and/or/conditional expressions/calls/subscripts of tuple and list displays by constant, negative, bool and "
+              "multi-binding indices, if/elif/else, module-level defs with positional parameters); "
               "non-trivial = completes under CPython and has >1 final world, a branch or a call; distinct by source. "
               "(b) generated loop-free programs of 8-30 top-level items with classes (single/multiple inheritance), "
               "methods, instance attributes, lambdas, closures, comprehensions over literals, subscripts, builtin "
@@ -1003,6 +1012,11 @@ def run(res):
       "pytype's call cache, folding of Python-equal literals in set/dict displays and the deep-binding-product "
       "fallback of builtin calls are outside the model: the generator avoids them / the lower bound is skipped on "
       "programs with a repeated call key",
+      "subscripts: CPython's compile-time folding of <constant tuple>[<constant>] is not mirrored (the generator "
+      "writes such receivers as list displays); when an element variable of a subscripted display can hold several "
+      "bindings (program flavour 'free') the strict run returns all of them, which is sound but not a lower bound of "
+      "pytype's answer, so only upper bound + ceval==CPython + the oracle are demanded there; receivers other than "
+      "list/tuple values and tuple subscripts by non-literal indices are not generated",
       "membership oracle over printed types (harness/props/c01_e2e.py admits): reports definite exclusions only",
   ]
   common.coq_obligations(res, "C01")
@@ -1017,7 +1031,7 @@ def run(res):
   res.extra["modelled_function_digests"] = dg
   drift = any(VALIDATED_DIGESTS.get(k) not in ("", v) for k, v in dg.items())
   res.extra["drift_sentinel_escalated"] = drift
-  n_l0, n_e2e = (2500, 6000) if thorough else (150, 300)
+  n_l0, n_e2e = (2500, 6000) if thorough else (120, 300)
   if drift and not thorough:
     n_l0, n_e2e = 450, 600
   n_l1 = 600 if thorough else (60 if drift else 30)
